@@ -24,6 +24,7 @@
     naming.nohandler <types.namespace> <module_path>                     → namespace | error   (string layer)
     enum.value <name> <member,…>                                         → S=<index|IndexError> A=…
     frag.relay | frag.dictiter | frag.subrelay | frag.subto | frag.classvar <text>      (string layer)
+    frag.initcall <value> <var_type>                                     → true | false | IndexError
     s! <op…>      the same op, printing the string layer's answer only (inputs outside the abstract layer's domain)
 -/
 import Tranp.Driver.Common
@@ -232,6 +233,10 @@ def step1 (st : St) : List String → St × String
   | ["frag.subrelay", t] => (st, Str.hex (Fragment.subCvarRelay (unhexD t)))
   | ["frag.subto", t] => (st, Str.hex (Fragment.subCvarTo (unhexD t)))
   | ["frag.classvar", t] => (st, Str.hex (Fragment.pluckClassVarName (unhexD t)))
+  | ["frag.initcall", v, ty] =>
+    (st, match Fragment.isInitializerCall (unhexD v) (unhexD ty) with
+      | some b => toString b
+      | none => "IndexError")
   | ["dsn.fulljoined", dsn, elems] => (st, Str.hex (ScopeStr.fullJoined (unhexD dsn) (unhexL elems)))
   | ["dsn.localjoined", elems] => (st, Str.hex (ScopeStr.localJoined (unhexL elems)))
   | ["dsn.parsed", dsn] => let p := ScopeStr.parsed (unhexD dsn); (st, s!"{Str.hex p.1}|{Str.hex p.2}")
